@@ -3,6 +3,7 @@
 package lz4
 
 import (
+	"errors"
 	"io"
 	"sync"
 )
@@ -243,6 +244,10 @@ func H_conc_w() {
 			}
 			// C14: the bytes do not depend on the concurrency level or the schedule
 			vfAssert("cdet-bytes-equal-sequential", vfEqBytes(sink.buf, seq.buf))
+			// C02 with a concurrent Writer: the real Reader gives the input back
+			back, fin := hConcDrain(NewReader(&hSource{data: sink.buf, failAt: -1}), 1)
+			vfAssert("rt-clean-end", fin == io.EOF)
+			vfAssert("rt-output-equals-input", vfEqBytes(back, r.want))
 		}
 		if r.second {
 			fi2 := refFrame(sink2.buf, true)
@@ -372,6 +377,9 @@ func H_conc_r() {
 	if damage == 0 {
 		vfAssert("conc-r-clean-end", final == io.EOF)
 		vfAssert("conc-r-blocks-in-order", vfEqBytes(out, content))
+		// C02 with a concurrent Reader
+		vfAssert("rt-clean-end", final == io.EOF)
+		vfAssert("rt-output-equals-input", vfEqBytes(out, content))
 	} else {
 		// whatever was delivered is a prefix of the content; a clean end only with everything
 		vfAssert("conc-r-delivered-prefix", hIsPrefix(out, content))
@@ -380,6 +388,17 @@ func H_conc_r() {
 		}
 		if damage == 3 && src.calls > cut {
 			vfAssert("cfault-source-failure-not-a-clean-end", final != io.EOF)
+		}
+		if damage == 1 && cut < len(frame) && vfParam("legacy") == 0 {
+			// C06 with a concurrent Reader
+			vfAssert("trunc-delivered-is-prefix", hIsPrefix(out, content))
+			vfAssert("trunc-not-clean", final != io.EOF)
+			vfAssert("trunc-error-is-not-eof", vfAnd(final != nil, final != io.EOF))
+			vfAssert("trunc-error-does-not-wrap-eof", !errors.Is(final, io.EOF))
+		}
+		if damage == 2 && final == io.EOF {
+			// C05 with a concurrent Reader: a clean end only for what the reference parser accepts
+			hAcceptOracle(stream[:src.pos], out)
 		}
 	}
 	if reuse {
